@@ -298,7 +298,7 @@ func isDeclaredSafeLeaf(v *Val) bool {
 	switch v.GoT {
 	case "SvInt", "SvStr", "SafeInt", "SafeUint", "SafeFloat", "SafeString":
 		return true
-	case "RegInt", "RegStr":
+	case "RegInt", "RegStr", "uint16":
 		return true // public when registered; kept equal in both instantiations either way
 	}
 	return false
@@ -431,6 +431,17 @@ func genQ02(w *bufio.Writer, rng *prng, n int, depth int) {
 			b[i] = 'x'
 		}
 		_ = append(b[:0], "]]"...)
+	}
+	// a map whose value type is registered as safe: its keys are not
+	{
+		setRegistry(true)
+		for _, d := range []string{"%v", "%d", "%+v", "%6v"} {
+			a := string(redact.Sprintf(d, map[string]RegInt{"hunter2": 3, "x": 3}))
+			b := string(redact.Sprintf(d, map[string]RegInt{"swordfi": 3, "y": 3}))
+			q.eq("C02", "Redact() of two instantiations of the same shape differ", fn("redact", lit(a)), fn("redact", lit(b)), fmt.Sprintf("map[string]RegInt under %q: %q vs %q", d, a, b))
+			q.eq("C05", "keys of a map whose value type is registered are still enveloped", fn("delenv", lit(string(redact.Sprintf(d, map[string]RegInt{"k": 3})))), fn("delenv", lit(string(redact.Sprintf(d, map[Blank]RegInt{{"k"}: 3})))), d)
+		}
+		setRegistry(false)
 	}
 	// complex numbers (no counterpart in the model): sign, magnitude and special values of both parts are unsafe
 	{
@@ -1084,7 +1095,7 @@ func genQ08(w *bufio.Writer, rng *prng, n int, depth int) {
 		sb.Printf("u=%s ", "al‹ice")
 		sb.SafeString("mid\n")
 		r := sb.RedactableString()
-		for _, d := range []string{"%v", "%#v", "%#10v", "%s", "%+v"} {
+		for _, d := range []string{"%v", "%#v", "%#10v", "%s", "%+v", "%q", "%x", "%X", "% x", "%d", "%.3s"} {
 			q.eq("C08", "Sprintf("+d+", StringBuilder) = its contents", lit(string(redact.Sprintf(d, sb))), lit(string(r)), "builder "+string(r))
 			q.eq("C08", "Sprintf("+d+", &StringBuilder) = its contents", lit(string(redact.Sprintf(d, &sb))), lit(string(r)), "builder "+string(r))
 		}
@@ -1484,8 +1495,34 @@ func (f *failWriter) Write(p []byte) (int, error) {
 	return len(p), nil
 }
 
+type hidKey struct {
+	A int
+	b string
+}
+
 func genQ16(w *bufio.Writer, rng *prng, n int, depth int) {
 	q := &qw{w}
+	// a map operand whose keys differ in unexported fields only: every route prints the same order
+	{
+		m := map[hidKey]int{{1, "z"}: 1, {1, "a"}: 2, {1, "m"}: 3, {0, "q"}: 4, {1, "b"}: 5}
+		first := string(redact.Sprint(m))
+		same := true
+		detail := ""
+		for it := 0; it < 40 && same; it++ {
+			var buf bytes.Buffer
+			_, _ = redact.Fprint(&buf, m)
+			var sb redact.StringBuilder
+			sb.Print(m)
+			nn := string(redact.Sprintfn(func(p redact.SafePrinter) { p.Print(m) }))
+			for _, o := range []string{string(redact.Sprint(m)), buf.String(), string(sb.RedactableString()), nn, string(redact.Sprintf("%v", m))} {
+				if o != first {
+					same, detail = false, o+" vs "+first
+				}
+			}
+		}
+		q.truth("C16", "the routes print a map operand in different orders", same, detail)
+		q.eq("C04", "StripMarkers(redact output) = fmt output with markers replaced", fn("strip", lit(first)), fn("escm", lit(fmt.Sprint(m))), "map keyed by a struct with an unexported field")
+	}
 	for i := 0; i < n; i++ {
 		g := &vgen{rng: rng, hostile: true}
 		c := &pcase{reg: rng.coin(1, 4)}
@@ -1998,6 +2035,17 @@ func c12probes() []probeFn {
 		{"Fprintf", func() string { var b bytes.Buffer; _, _ = redact.Fprintf(&b, "%x %q", "hi", 'x'); return b.String() }},
 		{"EscapeBytes", func() string { return string(redact.EscapeBytes([]byte("a‹b\nc"))) }},
 		{"struct %+v", func() string { return string(redact.Sprintf("%+v|%#v", sameNameB(), sameNameB())) }},
+		{"Sprintfn writers and state", func() string {
+			return string(redact.Sprintfn(func(w redact.SafePrinter) {
+				w.SafeInt(7)
+				w.SafeUint(3)
+				w.SafeFloat(1.5)
+				w.UnsafeString("u")
+				wid, wok := w.Width()
+				prec, pok := w.Precision()
+				w.Printf("|%d%v%d%v%v%v%v", wid, wok, prec, pok, w.Flag('+'), w.Flag('0'), w.Flag('#'))
+			}))
+		}},
 	}
 }
 
@@ -2022,6 +2070,7 @@ func c12history(g *vgen, depth int) {
 	for j := 0; j < k; j++ {
 		switch rng.intn(13) {
 		case 12:
+			_ = redact.Sprintf(rng.pick([]string{"%+08d", "%-#12.5x", "% 9.3f|%+v"}), 5, 2)
 			_ = redact.Sprintf(rng.pick([]string{"%+v", "%#v", "%v"}), sameNameA())
 			_ = redact.Sprintfn(func(p redact.SafePrinter) { p.Printf("%+v", sameNameA()) })
 		case 0: // very large output: the printer's buffer is dropped, not recycled
@@ -2367,7 +2416,9 @@ func genQ14(w *bufio.Writer, rng *prng, n int, depth int) {
 				for vi, verb := range verbs {
 					count++
 					// thin the product unless depth asks for all of it
-					if depth < 4 && (count+int(rng.s%7))%(8>>uint(depth%4+0)) != 0 && vi%3 != int(rng.s%3) {
+					// (the common verbs with the common width/precision settings are never thinned out)
+					common := strings.ContainsRune("vsdxq", verb) && (wd == "" || wd == "7") && (pr == "" || pr == ".1")
+					if !common && depth < 4 && (count+int(rng.s%7))%(8>>uint(depth%4+0)) != 0 && vi%3 != int(rng.s%3) {
 						continue
 					}
 					d := "%" + fl + wd + pr + string(verb)
@@ -2819,6 +2870,7 @@ func genQ17(w *bufio.Writer, rng *prng, n int, depth int) {
 				{"in exported field", func() string { return string(redact.Sprintf("<"+d+">", holder{E: e})) }, "", ""},
 				{"in interface field of pointer to struct", func() string { return string(redact.Sprintf("<"+d+">", &holder{I: e})) }, "", ""},
 				{"in []error", func() string { return string(redact.Sprintf("<"+d+">", []error{e})) }, "<[", "]>"},
+				{"surplus operand", func() string { return string(redact.Sprintf("<"+d+">", 1, e)) }, "", ""},
 			}
 			for _, pos := range positions {
 				hookLog = nil
@@ -2834,6 +2886,9 @@ func genQ17(w *bufio.Writer, rng *prng, n int, depth int) {
 					q.truth("C17", "hook not called exactly once with the error ("+pos.name+")", called, info+fmt.Sprintf(" log=%v", hookLog))
 					if called {
 						wantVerb := rune(d[len(d)-1])
+						if pos.name == "surplus operand" {
+							wantVerb = 'v' // the EXTRA report prints the left-over operands under %v
+						}
 						q.truth("C17", "hook received a verb other than the active one ("+pos.name+")", hookLog[0].verb == wantVerb, info)
 					}
 					if !isPanic && d != "%#v" && pos.pre != "" {
